@@ -35,22 +35,8 @@ package destructive
 //@ extern func strings.ToUpper(s string) (r string)
 //@   pure
 
-// sqlx.Has(attrs, &g) for g a GeneratedExpr: whether the column carries a generated-expression
-// attribute, and its Type (uninterpreted functions of the attribute list).
-//@ spec func specHasGen(elements any) bool { panic("uninterpreted") }
-//@ func specHasGen(elements any) (b bool)
-//@   trusted
-//@   pure
-//@ spec func specGenType(elements any) string { panic("uninterpreted") }
-//@ func specGenType(elements any) (s string)
-//@   trusted
-//@   pure
-//@ extern func sqlx.Has(elements any, target any) (ok bool)
-//@   modifies struct(schema.GeneratedExpr)
-//@   ensures GvcIs[*schema.GeneratedExpr](target) ==> ok == specHasGen(elements) && (ok ==> target.(*schema.GeneratedExpr).Type == specGenType(elements))
-
 //@ spec func gvcNonVirtual(c *schema.Column) bool {
-//@ spec 	return !specHasGen(c.Attrs) || strings.ToUpper(specGenType(c.Attrs)) != "VIRTUAL"
+//@ spec 	return !sqlx.SpecHasGen(c.Attrs) || strings.ToUpper(sqlx.SpecGenType(c.Attrs)) != "VIRTUAL"
 //@ spec }
 //@ rec gvcDropsTable
 //@ spec func gvcDropsTable(f *sqlcheck.File, c schema.Change) bool {
